@@ -141,6 +141,9 @@ class Std:
 
 
 class Scenario:
+    # share of scenarios whose signal paths get arbitrary phases
+    rotate_prob = 0.3
+
     def __init__(self, ctype, r, c, F, rng, fmin=1e9, fmax=8e9, form=None):
         self.ctype, self.r, self.c, self.F = ctype, r, c, F
         self.p = max(r, c)
@@ -153,6 +156,9 @@ class Scenario:
             self.freqs = fmin + (fmax - fmin) * (
                 (np.arange(F) + rng.uniform(0.1, 0.9, F)) / F)
         self.enet = [physics.ENet(ctype, r, c, rng) for _ in range(F)]
+        self.rotated = False
+        if rng.random() < self.rotate_prob:
+            self.rotate_tracking()
         self.z0 = 50.0 + 0j
         self.form = form or ("m" if rng.random() < 0.5 else "ab")
         self.stds = []
